@@ -277,6 +277,20 @@ def run(rep, tier, seed, selftest):
         for f in probe.violations:
             if os.path.exists(f):
                 os.remove(f)
+        # the same for the caller/callee family: a corrupted expected value, and a refused program presented as accepted
+        probe2 = common.Report("C01", tier, seed)
+        probe2.known = []
+        victim = next(c for c in ptr_cases if c["status"] == "done" and c["out"][:11] != c["out"][-11:])
+        bad = json.loads(json.dumps(victim))
+        bad["out"][-1][0] = (bad["out"][-1][0] + 1) % 256
+        legal = json.loads(json.dumps(victim))
+        legal["status"] = "illegal"
+        with contextlib.redirect_stdout(buf):
+            check_ptr_cases(probe2, [bad, legal], 1, seed, "C01-selftest-ptr")
+        selftests["ptr_corrupted_expectation_and_wrong_verdict_detected"] = len(probe2.violations) == 2
+        for f in probe2.violations:
+            if os.path.exists(f):
+                os.remove(f)
         selftests.update(rnd.get("selftests", {}))
         log("[selftest] %s" % json.dumps(selftests))
         for name, ok in selftests.items():
